@@ -429,6 +429,7 @@ def run(ck):
     ck.floor("SIB/ref-conditions", _cp.check(ck, P, "SIB/ref-conditions", only={"inflate.c:inflate", "inffast_tpl.h:INFLATE_FAST", "inftrees.c:zng_inflate_table"}), 60)
     from .. import guards as _g
     _g.crc_fold_start(ck, P)
+    _g.fold_copy_dst(ck, P)
     # inflateBack writes into a caller-supplied window: its raw copies are bounded by the room left in it
     from . import c19 as _c19
     _c19.raw_guards(ck, P)
